@@ -1,6 +1,7 @@
 ----------------------------- MODULE Mutations -----------------------------
 (***************************************************************************)
-(* Input family (b) of property C01: valid programs - one or two per        *)
+(* Input family (b) of property C01: valid programs (1..NumValid) and near  *)
+(* misses (one per parser diagnostic) - one or two per                      *)
 (* declaration and statement kind, every optional part present somewhere -  *)
 (* as sequences of source tokens, and all their single-token mutations as   *)
 (* actions: Truncate(i) (every proper prefix), Delete(i), Replace(i, t) for *)
@@ -38,8 +39,22 @@ Programs == <<
 ,
   \* every list production with no element: explicit empty parameter lists, empty bodies, empty argument lists
   <<"sub", "f", "(", ")", "{", "}", "sub", "g", "(", ")", "STRING", "{", "return", "\"x\"", ";", "}", "sub", "h", "(", "STRING", "var.a", ")", "{", "}", "acl", "e", "{", "}", "table", "e", "{", "}", "backend", "e", "{", "}", "director", "e", "random", "{", "}">>,
-  <<"sub", "vcl_recv", "{", "if", "(", "a", ")", "{", "}", "else", "{", "}", "f", "(", ")", ";", "call", "f", "(", ")", ";", "{", "}", "switch", "(", "a", ")", "{", "case", "\"a\"", ":", "break", ";", "case", "~", "\"a\"", ":", "break", ";", "default", ":", "break", ";", "}", "}", "backend", "b", "{", ".probe", "=", "{", "}", "}", "director", "d", "random", "{", "{", "}", "}">>
+  <<"sub", "vcl_recv", "{", "if", "(", "a", ")", "{", "}", "else", "{", "}", "f", "(", ")", ";", "call", "f", "(", ")", ";", "{", "}", "switch", "(", "a", ")", "{", "case", "\"a\"", ":", "break", ";", "case", "~", "\"a\"", ":", "break", ";", "default", ":", "break", ";", "}", "}", "backend", "b", "{", ".probe", "=", "{", "}", "}", "director", "d", "random", "{", "{", "}", "}">>,
+  \* near misses (programs 17..): one per diagnostic the parser can give that a single mutation of a valid program
+  \* rarely produces - empty switch, duplicate label, two defaults, final fallthrough, clause without break, delimiter
+  \* mismatch, integer overflow, bad escape, parenthesis mismatch, missing colon, statement outside a subroutine
+  <<"sub", "s", "{", "switch", "(", "a", ")", "{", "}", "}">>,
+  <<"sub", "s", "{", "switch", "(", "a", ")", "{", "case", "\"a\"", ":", "break", ";", "case", "\"a\"", ":", "break", ";", "}", "}">>,
+  <<"sub", "s", "{", "switch", "(", "a", ")", "{", "default", ":", "break", ";", "default", ":", "break", ";", "}", "}">>,
+  <<"sub", "s", "{", "switch", "(", "a", ")", "{", "case", "\"a\"", ":", "esi", ";", "fallthrough", ";", "}", "}">>,
+  <<"sub", "s", "{", "switch", "(", "a", ")", "{", "case", "\"a\"", ":", "case", "~", "\"b\"", ":", "esi", ";", "break", ";", "default", ":", "}", "}">>,
+  <<"sub", "s", "{", "set", "var.i", "=", "9223372036854775808", ";", "}">>,
+  <<"sub", "s", "{", "set", "var.s", "=", "\"%zz\"", ";", "}">>,
+  <<"sub", "s", "{", "set", "var.s", "=", "{AB\"x\"BA}", ";", "}">>,
+  <<"sub", "s", "{", "return", "(", "lookup", ";", "}", "sub", "t", "{", "return", "lookup", ")", ";", "}", "sub", "u", "{", "switch", "(", "a", ")", "{", "case", "\"a\"", "break", ";", "}", "}">>,
+  <<"set", "req.http.A", "=", "\"a\"", ";", "sub", "s", "{", "break", ";", "fallthrough", ";", "}", "sub", "f", "(", "STRING", ")", "{", "}", "sub", "g", "(", "STRING", "var.a", ",", ")", "{", "}">>
 >>
+NumValid == 16
 
 Repl == <<"{", "}", "(", ")", ";", ",", ":", ".", "=", "==", "!", "~", "+", "-", "/", "%", "&&", "||", "|", "&", "*",
           "<<", ">>", "if", "else", "elseif", "sub", "acl", "backend", "table", "director", "set", "unset", "call",
@@ -47,7 +62,13 @@ Repl == <<"{", "}", "(", ")", ";", ",", ":", ".", "=", "==", "!", "~", "+", "-",
           "declare", "goto", "pragma", "C!", "x", "1", "1.5", "2s", "\"s\"", "{\"ls\"}", "{\"unterminated",
           "\"unterminated", "/* unterminated", "# c", "NUL", "XFF", "U2", "\n",
           \* strings whose escapes are complete, incomplete, invalid or NUL (parser/string_escape.go)
-          "\"%41\"", "\"%\"", "\"%u{\"", "\"%e2%82\"", "\"%u00\"", "\"a%00b\"", "\"%u{110000}\"", "\"%ud800\"", "{\"%41\"}">>
+          "\"%41\"", "\"%\"", "\"%u{\"", "\"%e2%82\"", "\"%u00\"", "\"a%00b\"", "\"%u{110000}\"", "\"%ud800\"", "{\"%41\"}",
+          \* one token of every remaining type the lexer produces (all assignment and comparison operators, every
+          \* literal spelling and RTIME unit, keywords, identifiers spelled like operators, delimited long strings)
+          "+=", "-=", "*=", "/=", "%=", "|=", "&=", "^=", "<<=", ">>=", "rol=", "ror=", "&&=", "||=", "!=", "!~", "<", ">", "<=", ">=",
+          "[", "]", "^", "rol", "ror", "true", "false", "3m", "4d", "5y", "6h", "7ms", "0x1F", "0X1f", "0x", "1e3", "1.5e-3", "0x1.8p3",
+          "0x1.e", "{XY\"ls\"XY}", "{XY\"ls\"YX}", "elsif", "remove", "add", "log", "esi", "synthetic", "synthetic.base64", "penaltybox",
+          "ratecounter", "W!", "req.http.Cookie:a", "x-*", "done:", "\"a\nb\"", "99999999999999999999", "0xFFFFFFFFFFFFFFFFF", "1e", "0x1p">>
 Ins == <<"pragma", "C!", "{\"unterminated", "\"unterminated", "/* unterminated", "NUL", "# c">>
 
 VARIABLES p, mut, at, with, toks, steps
@@ -72,5 +93,5 @@ Next == \/ \E q \in 1..Len(Programs) : Pick(q)
         \/ \E i \in 1..(Len(toks) + 1), r \in 1..Len(Ins) : Insert(i, r)
 Spec == Init /\ [][Next]_vars
 Emit == mut # "none" =>
-          PrintT(<<"BEHAVIOUR", ToJson([prog |-> p, mut |-> mut, at |-> at, with |-> with, steps |-> steps, toks |-> toks])>>)
+          PrintT(<<"BEHAVIOUR", ToJson([prog |-> p, valid |-> p <= NumValid, mut |-> mut, at |-> at, with |-> with, steps |-> steps, toks |-> toks])>>)
 =============================================================================
